@@ -1,5 +1,6 @@
 (* C17 — memory use is bounded by the configured tag size limit, whatever input claims.  Statements only. *)
-From Ebml Require Import Base Tools Spec Reader Pure Proofs.Tactics Proofs.ReaderIO Proofs.Refine Proofs.CapBound.
+From Ebml Require Import Base Tools Spec Reader Pure Proofs.Tactics Proofs.ReaderIO Proofs.Refine Proofs.CapBound
+  Proofs.Extents Proofs.NoOverflow.
 
 (* With a size limit of m bytes the internal buffer never grows beyond max(initial capacity, 16, m): for every input, every
    tolerance setting / buffered set / EOF-closing setting, every source script (short reads, Ok(0) pauses and I/O errors
@@ -35,3 +36,132 @@ Example C17_ex :
   run_reader_cap c 0 [] [129; 255; 65; 2; 133; 1; 2; 3] [RAll] =
     (16, [OItem (TStart 129) 0; OErr (REof 2 (Some 16642) (Some 5) (Some [1; 2; 3]))]).
 Proof. vm_compute. split; reflexivity. Qed.
+
+(* ------------------------------------------------------------------ "a declared size never causes arithmetic overflow" *)
+(* The model computes on unbounded numbers where src/tag_iterator.rs computes on usize.  For byte inputs shorter than 2^62
+   bytes every sum the code forms stays below 2^63 < 2^64 = usize::MAX + 1 (64-bit target), so nothing is lost: no wrap-around
+   in release builds, no overflow panic in debug builds.  The statements are about the abstract reader (Model/Pure.v) - offsets,
+   sizes, ends of declared ranges - in every state that next()/try_recover() can reach ([Reach], Proofs/Extents.v), for every
+   configuration; the last two transfer them to the buffered machine.  Panics other than overflow: Props/C05.v. *)
+
+(* the invariant: the bytes left are bytes; cursor + bytes left = input length; the cursor is below 2^62; every open master
+   starts at or before the cursor, and if its size n is known (enlarged by try_recover or not): data_start + n is below
+   cursor + 2^56 and below 2^63, and n is below 2^63 *)
+Theorem C17_no_overflow : forall c input ops, wf_bytes input -> N.of_nat (length input) < 2 ^ 62 ->
+  no_overflow_inv input (fst (p_run_ops c (4 * length input + 64) (p_init input) ops)).
+Proof. exact run_no_overflow. Qed.
+
+Theorem C17_no_overflow_reach : forall c input st, wf_bytes input -> N.of_nat (length input) < 2 ^ 62 -> Reach c input st ->
+  no_overflow_inv input st.
+Proof. exact reach_no_overflow. Qed.
+
+(* `self.buffer_offset.unwrap_or(0) + self.internal_buffer_position`  (current_offset) *)
+Theorem C17_sum_current_offset : forall c input, wf_bytes input -> N.of_nat (length input) < 2 ^ 62 -> forall st,
+  Reach c input st -> b_off st <= N.of_nat (length input) /\ b_off st < 2 ^ 64.
+Proof. exact sum_current_offset. Qed.
+
+(* `tag.data_start + size`  (read_next)  and  `t.data_start + t.size.value()`  (is_invalid_tag_size) *)
+Theorem C17_sum_frame_end : forall c input, wf_bytes input -> N.of_nat (length input) < 2 ^ 62 -> forall st f n,
+  Reach c input st -> In f (b_stack st) -> f_size f = SKnown n ->
+  f_data f <= b_off st /\ f_data f + n < 2 ^ 63 /\ f_data f + n < 2 ^ 64.
+Proof. exact sum_frame_end. Qed.
+
+(* peek_tag_id / peek_valid_tag_header, for every header whose id and size vint can be decoded, whatever the outcome:
+   `val <<= 8; val += *item as u64` (the id fits a u64);  `id_len + size_len`;  `(1 << (7 * n)) - 1` (EBMLSize::new);
+   `header_len + known_size`;  `self.current_offset() + size` (is_invalid_tag_size, size = header_len + known_size) *)
+Theorem C17_sum_header_decoded : forall c input, wf_bytes input -> N.of_nat (length input) < 2 ^ 62 -> forall st id idl size sl,
+  Reach c input st ->
+  p_tag_id st = Ok (id, idl) -> read_vint (firstn 8 (skipn idl (b_bytes st))) = Ok (Some (size, sl)) ->
+  id < 2 ^ 64 /\ (idl + sl <= 16)%nat /\ 2 ^ (7 * N.of_nat sl) <= 2 ^ 56 /\ size < 2 ^ 56 /\
+  N.of_nat (idl + sl) + ksize (ebml_size size sl) < 2 ^ 57 /\
+  b_off st + (N.of_nat (idl + sl) + ksize (ebml_size size sl)) < 2 ^ 63.
+Proof. exact sum_header_decoded. Qed.
+
+(* an accepted header: `header_len + known_size`, `self.current_offset() + size`, the `t.data_start + t.size.value()` it is
+   compared with, and `self.internal_buffer_position += header_len` staying inside the input *)
+Theorem C17_sum_header_ok : forall c input, wf_bytes input -> N.of_nat (length input) < 2 ^ 62 -> forall st st1 id ty esz hl,
+  Reach c input st -> p_header c st = (st1, Ok (id, ty, esz, hl)) ->
+  (hl <= 16)%nat /\ ksize esz < 2 ^ 56 /\ N.of_nat hl + ksize esz < 2 ^ 57 /\
+  b_off st1 = b_off st /\ b_off st1 + (N.of_nat hl + ksize esz) < 2 ^ 63 /\
+  b_off st + N.of_nat hl <= N.of_nat (length input) /\
+  (forall f n, In f (b_stack st1) -> f_size f = SKnown n -> f_data f + n < 2 ^ 63).
+Proof. exact sum_header_ok. Qed.
+
+(* the two rejections that report the declared size (OversizedChildElement, InvalidTagSize): the sums had been computed *)
+Theorem C17_sum_header_oversized : forall c input, wf_bytes input -> N.of_nat (length input) < 2 ^ 62 -> forall st st1 pos id ks,
+  Reach c input st -> p_header c st = (st1, Err (ROversized pos id ks)) ->
+  pos = b_off st /\ ks < 2 ^ 56 /\ forall hl, (hl <= 16)%nat -> b_off st + (N.of_nat hl + ks) < 2 ^ 63.
+Proof. exact sum_header_oversized. Qed.
+Theorem C17_sum_header_invalid_size : forall c input, wf_bytes input -> N.of_nat (length input) < 2 ^ 62 -> forall st st1 pos id n,
+  Reach c input st -> p_header c st = (st1, Err (RInvalidSize pos id n)) ->
+  pos = b_off st /\ n < 2 ^ 56 /\ forall hl, (hl <= 16)%nat -> b_off st + (N.of_nat hl + n) < 2 ^ 63.
+Proof. exact sum_header_invalid_size. Qed.
+
+(* all the sums of peek_valid_tag_header / is_invalid_tag_size in one list ([header_sums], Proofs/NoOverflow.v) *)
+Theorem C17_header_sums_bounded : forall c input, wf_bytes input -> N.of_nat (length input) < 2 ^ 62 -> forall st,
+  Reach c input st -> Forall (fun x => x < 2 ^ 63) (header_sums st).
+Proof. exact header_sums_bounded. Qed.
+
+(* read_tag: tag_start / data_start = current_offset(); `self.internal_buffer_position += header_len`, `+= size`
+   (read_tag_data) leave the cursor inside the input; the frame (data_start, size) that read_next pushes ends below 2^63 *)
+Theorem C17_sum_read_tag : forall c input, wf_bytes input -> N.of_nat (length input) < 2 ^ 62 -> forall st st' r,
+  Reach c input st -> p_read_tag c st = (st', r) ->
+  b_off st <= b_off st' /\ b_off st' <= N.of_nat (length input) /\
+  forall p, r = Ok p ->
+    p_start p = b_off st /\ p_start p <= p_data p /\ p_data p <= b_off st' /\
+    ksize (p_size p) < 2 ^ 56 /\ p_data p + ksize (p_size p) < 2 ^ 63.
+Proof. exact sum_read_tag. Qed.
+
+(* try_recover: `self.current_offset() - original_position` (no underflow) and `size + diff` for every open known-size master *)
+Theorem C17_sum_recover : forall c input, wf_bytes input -> N.of_nat (length input) < 2 ^ 62 -> forall st st1,
+  Reach c input st -> p_recover_loop (b_fuel st) c st = (st1, None) ->
+  b_off st <= b_off st1 /\ b_off st1 <= N.of_nat (length input) /\
+  forall f n, In f (b_stack st1) -> f_size f = SKnown n ->
+    n + (b_off st1 - b_off st) < 2 ^ 63 /\ f_data f + (n + (b_off st1 - b_off st)) < 2 ^ 63.
+Proof. exact sum_recover. Qed.
+Theorem C17_sum_recover_result : forall c input, wf_bytes input -> N.of_nat (length input) < 2 ^ 62 -> forall st f n,
+  Reach c input st -> In f (b_stack (fst (p_try_recover c st))) -> f_size f = SKnown n -> n < 2 ^ 63 /\ f_data f + n < 2 ^ 63.
+Proof. exact sum_recover_result. Qed.
+
+(* the buffered machine on a source that never pauses or fails: consumed + window + undelivered = input length, and the
+   same bounds for its offset and stack *)
+Theorem C17_buffered_no_overflow : forall c cap0 script input ops, calm script -> wf_bytes input ->
+  N.of_nat (length input) < 2 ^ 62 ->
+  let st := fst (run_reader_st c cap0 script input ops) in
+  r_off st + r_wlen st + r_rlen st = N.of_nat (length input) /\ r_off st < 2 ^ 62 /\
+  forall f, In f (r_stack st) ->
+    f_data f <= r_off st /\ forall n, f_size f = SKnown n -> f_data f + n < 2 ^ 63 /\ n < 2 ^ 63.
+Proof. exact buffered_no_overflow. Qed.
+
+(* buffer indices: internal_buffer_position <= buffered_byte_length <= buffer.len() in the code, and for every source script,
+   with or without a size limit, the window fits the buffer and the buffer stays below max(cap0, 16, 2^56); so
+   `self.internal_buffer_position + length` (length = 1, 8, 16 or a declared size < 2^56) is below 2^57 + max(cap0, 16) *)
+Theorem C17_buffer_bounded_bytes : forall c cap0 script input ops, wf_bytes input ->
+  let st := fst (run_reader_st c cap0 script input ops) in
+  r_wlen st <= r_cap st /\ r_cap st <= N.max (N.max cap0 16) (2 ^ 56) /\ r_cap st + 2 ^ 56 < 2 ^ 57 + N.max cap0 16.
+Proof. exact cap_bounded_bytes. Qed.
+
+(* non-vacuity / order of magnitude: no size limit, a child header declaring 2^56-2 bytes.
+   (1) at offset 0 it is accepted (the payload is then missing): the sums are 10, 2^56+8, 2^56+8 - all below 2^57 - and the
+       buffered machine asks for a 2^56-2 byte buffer;
+   (2) inside a 5-byte master it is rejected as oversized: the sums are 10, 2^56+8, 2^56+10 and the master's end 2+5 *)
+Example C17_no_overflow_ex :
+  let sp := [ {| e_id := 129; e_ty := DMaster; e_path := [] |}; {| e_id := 16642; e_ty := DBinary; e_path := [PId 129] |} ] in
+  let c := {| c_sp := sp; c_allow_id := false; c_allow_hier := false; c_allow_over := false; c_max := None;
+              c_buffered := []; c_emit_eof := true |} in
+  let i1 := [65; 2; 1; 255; 255; 255; 255; 255; 255; 254] in
+  let i2 := [129; 133; 65; 2; 1; 255; 255; 255; 255; 255; 255; 254] in
+  let st2 := fst (p_run_ops c 100 (p_init i2) [RNext]) in
+  snd (p_header c (p_init i1)) = Ok (16642, Some DBinary, SKnown (2 ^ 56 - 2), 10%nat) /\
+  header_sums (p_init i1) = [10; 2 ^ 56 + 8; 2 ^ 56 + 8] /\
+  run_reader_cap c 0 [] i1 [RAll] = (2 ^ 56 - 2, [OErr (REof 0 (Some 16642) (Some (2 ^ 56 - 2)) (Some []))]) /\
+  p_run c i2 [RAll] = [OItem (TStart 129) 0; OErr (ROversized 2 16642 (2 ^ 56 - 2))] /\
+  snd (p_header c st2) = Err (ROversized 2 16642 (2 ^ 56 - 2)) /\
+  header_sums st2 = [10; 2 ^ 56 + 8; 2 ^ 56 + 10; 7] /\
+  forallb (fun x => x <? 2 ^ 57) (header_sums (p_init i1) ++ header_sums st2) = true.
+Proof. vm_compute. repeat split; reflexivity. Qed.
+
+(* the constant products of the sources: `4 * usize::pow(1000, 3)` (default size limit), `1024 * 64` (DEFAULT_BUFFER_LEN),
+   `7 * 8` (widest vint) *)
+Example C17_constants : 4 * 1000 ^ 3 < 2 ^ 64 /\ 1024 * 64 < 2 ^ 64 /\ 2 ^ (7 * 8) = 2 ^ 56.
+Proof. vm_compute. repeat split; reflexivity. Qed.
